@@ -61,6 +61,7 @@ def tok_allowed(kind, tok):
 
 
 def run(ctx):
+    freezemap_rule(ctx)
     f = ctx.f
     m = matrix(f)
     ctx.floor('WIRE', 'serializer functions matching on the schema node', len(m), 13)
@@ -634,6 +635,57 @@ def _end_eq(body, r, field, const):
         if not good:
             return False
     return True
+
+
+SPEC_LOGICAL_BASE = {   # Avro 1.11 "Logical Types": which primitive each logical type annotates
+    'Decimal': {'Bytes', 'Fixed'}, 'Uuid': {'String'}, 'Date': {'Int'}, 'TimeMillis': {'Int'}, 'TimeMicros': {'Long'},
+    'TimestampMillis': {'Long'}, 'TimestampMicros': {'Long'}, 'Duration': {'Fixed'}, 'BigDecimal': {'Bytes'},
+}
+
+
+def freezemap_rule(ctx):
+    """the node kind the (de)serializers dispatch on is built, at freeze, from the logical type only over the primitive
+    the specification lets it annotate (duration: a fixed of size 12 exactly), and from the plain type otherwise - a
+    logical type over anything else is ignored, never reinterpreted (shared by C01, C02, C03)"""
+    f = ctx.f
+    from .c03 import fn_by_label
+    tf = fn_by_label(f, '<schema::self_referential::Schema as core::convert::TryFrom>::try_from')
+    if tf is None:
+        ctx.ob('FREEZEMAP', 'anchor', False, None, 'TryFrom<SchemaMut> for Schema not found')
+        return
+    ctx.touched(tf)
+    SN = 'schema::self_referential::SchemaNode'
+    n = 0
+    for bb in sorted(tf.live_blocks()):
+        if tf.is_cleanup(bb):
+            continue
+        for s in tf.stmts(bb):
+            if not ('assign' in s and s['rv']['k'] == 'agg' and s['rv'].get('adt') == SN):
+                continue
+            v = s['rv']['variant']
+            lts, rts, size12 = set(), set(), False
+            for d_, si, taken in dominating_switches(tf, bb):
+                if si.get('kind') == 'enum':
+                    if taken[0] != 'variant':
+                        continue
+                    if si['adt'] == 'schema::safe::LogicalType':
+                        lts |= set(taken[1])
+                    elif si['adt'] == 'schema::safe::RegularType':
+                        rts |= set(taken[1])
+            for g in cmp_guards(tf, bb):
+                if g['op'] == 'Eq' and (('size' in g['l'].fields and g['r'].consts() == {12}) or ('size' in g['r'].fields and g['l'].consts() == {12})):
+                    size12 = True
+            n += 1
+            if v in SPEC_LOGICAL_BASE:
+                ok = lts == {v} and len(rts) == 1 and rts <= SPEC_LOGICAL_BASE[v] and (v != 'Duration' or size12)
+                det = 'SchemaNode::%s is built under logical type %s over %s%s (spec: %s over %s%s)' % (
+                    v, sorted(lts), sorted(rts), ' with size == 12' if size12 else '', v, sorted(SPEC_LOGICAL_BASE[v]), ', size 12' if v == 'Duration' else '')
+            else:
+                ok = rts == {v} and not lts
+                det = 'SchemaNode::%s is built from the plain type %s (logical types tested on the way: %s)' % (v, sorted(rts), sorted(lts) or 'none')
+            key = '%s/%s' % (v, '+'.join(sorted(rts)) or '?')
+            ctx.ob('FREEZEMAP', key, ok, short_loc(s.get('span')), det)
+    ctx.floor('FREEZEMAP', 'node kinds built at freeze', n, 23)
 
 
 def decscale_rule(ctx):
